@@ -1022,6 +1022,10 @@ func FunctionMap() map[string]physical.FunctionDetails {
 					OutputType:    octosql.String,
 					Strict:        false,
 					Function: func(values []octosql.Value) (octosql.Value, error) {
+						if values[0].TypeID == octosql.TypeIDString {
+							// A string is already a string, don't wrap it in quotes.
+							return values[0], nil
+						}
 						return octosql.NewString(values[0].String()), nil
 					},
 				},
